@@ -85,7 +85,7 @@ def session(bindir, steps, tag, size=(24, 80), touch=False, filter_time=120, qui
                 rd.wait_frames(n + 5, 3)
             elif k == "junk":
                 srv.push(st[1])
-                rd.wait_frames(n + 2, 2)
+                rd.wait_frames(n + 2 + st[1].count(b"\n") // 2, 3)
             elif k == "samespot":
                 lat, lon = RXF[0] + 0.31, RXF[1] + 0.47
                 for _ in range(st[1]):
@@ -380,9 +380,11 @@ def random_session(rng, i):
         options += ["--max-range", str(rng.choice((0, 1, 50, 500, 100000)))]
     if rng.random() < 0.15:
         options += ["--locations", "(HOME,%s,%s)" % (RXF[0] + 0.3, RXF[1] - 0.4), "(FAR,-89.9,179.9)"]
-    if options and not any(s_[0] == "junk" for s_ in steps) and "--limit-parsing" in options:
+    if "--limit-parsing" in options or rng.random() < 0.15:
+        # every kind of line that is no frame, one after the other (with parsing limited to extended squitters the lines
+        # take another path through the client)
         import feed_checks
-        steps.insert(rng.randrange(len(steps) + 1), ("junk", rng.choice(feed_checks.MALFORMED)))
+        steps.insert(rng.randrange(len(steps) + 1), ("junk", b"".join(feed_checks.MALFORMED)))
     return dict(steps=steps, tag=f"random{i}", size=size, touch=rng.random() < 0.4, filter_time=rng.choice((120, 120, 1, 0)),
                 quit_at_end=rng.random() < 0.8, options=options)
 
